@@ -129,6 +129,8 @@ def harnesses(tier):
     else:
         add("n=5,folds=2,rerun same seed,task order", dict(sizes=[5], folds=2, mode="rerun"), 0.01)
         add("n=4,folds=2,cap,rerun same seed", dict(sizes=[4], folds=2, mode="rerun", cap=3), 0.01)
+        add("n=5,folds=2,cap=2,rerun same seed", dict(sizes=[5], folds=2, mode="rerun", cap=2, fixed_hash_order=True), 0.01)
+        add("n=6,folds=3,cap=3,rerun same seed", dict(sizes=[6], folds=3, mode="rerun", cap=3, fixed_hash_order=True), 0.01)
         add("n=5,folds=3,models fed back in any order", dict(sizes=[5], folds=3, mode="feedback"), 0.01)
         add("n=3+3,folds=2,models fed back in any order", dict(sizes=[3, 3], folds=2, mode="feedback"), 0.01)
     return hs
